@@ -10,6 +10,7 @@ import (
 	"verif/engine"
 	"verif/exact"
 	"verif/oracle"
+	"verif/refcodec"
 	"verif/universe"
 )
 
@@ -211,7 +212,38 @@ func c01Check(r *engine.Run, p *oracle.Pair, want *oracle.SetOp, res geom.Geomet
 	}
 }
 
-var skippedProbes atomic.Int64
+var skippedProbes, zmCounter atomic.Int64
+
+// withZM gives every vertex a Z and/or M value that varies along the geometry.
+func withZM(g geom.Geometry, ct geom.CoordinatesType) geom.Geometry {
+	h := g.ForceCoordinatesType(ct)
+	n := refcodec.Describe(h)
+	k := 0.0
+	var walk func(n *refcodec.Node)
+	walk = func(n *refcodec.Node) {
+		for i := range n.Coords {
+			for j := 2; j < len(n.Coords[i]); j++ {
+				k++
+				n.Coords[i][j] = k
+			}
+		}
+		if n.T == geom.TypePolygon {
+			for i := range n.Kids { // keep rings closed in Z/M too
+				walk(&n.Kids[i])
+				c := n.Kids[i].Coords
+				if len(c) > 1 {
+					c[len(c)-1] = append([]float64{}, c[0]...)
+				}
+			}
+			return
+		}
+		for i := range n.Kids {
+			walk(&n.Kids[i])
+		}
+	}
+	walk(&n)
+	return rebuild(n)
+}
 
 type binop struct {
 	name string
@@ -301,6 +333,29 @@ func c01PairGP(r *engine.Run, a, b Operand, needClearance bool) {
 		c01Check(r, p, want, res, err, c, mag)
 		if err == nil {
 			areas[o.name] = res.Area()
+		}
+	}
+	// Z/M-carrying operands: set operations are defined on XY only, so the result must be the
+	// same XY geometry whatever Z/M the operands carry (first operand, second operand, both)
+	if zmCounter.Add(1)%4 == 0 {
+		for _, o := range c01Ops[:8:8] {
+			if o.swap {
+				continue
+			}
+			base, berr := o.fn(a.G, b.G)
+			for vi, v := range [][2]geom.Geometry{{withZM(a.G, geom.DimXYZ), b.G}, {a.G, withZM(b.G, geom.DimXYZM)}, {withZM(a.G, geom.DimXYM), withZM(b.G, geom.DimXYZ)}} {
+				var res geom.Geometry
+				var err error
+				r.Transitions.Add(1)
+				c := setopCase{Op: o.name + fmt.Sprintf(" with Z/M operands (variant %d)", vi), A: v[0].AsText(), B: v[1].AsText()}
+				if pnc := engine.SafeCall(func() { res, err = o.fn(v[0], v[1]) }); pnc != nil {
+					r.Violation("C01/"+o.name+".zm.panic", "setop", c, fmt.Sprint(pnc))
+					continue
+				}
+				if (err == nil) != (berr == nil) || (err == nil && res.AsText() != base.AsText()) {
+					r.Violation("C01/"+o.name+".zm.differsFromXY", "setop", c, fmt.Sprintf("%s %v vs %s %v", res.AsText(), err, base.AsText(), berr))
+				}
+			}
 		}
 	}
 	// algebra on the library's own numbers: inclusion-exclusion and A = (A-B) ∪ (A∩B) for areas
